@@ -28,7 +28,9 @@ def make_overlay(name, edits):
     os.makedirs(d)
     repl = {}
     texts = {}
-    for (rel, old, new) in edits:
+    for ed in edits:
+        rel, old, new = ed[0], ed[1], ed[2]
+        nth = ed[3] if len(ed) > 3 else None
         src = os.path.join(REPO, rel)
         if rel not in texts:
             texts[rel] = open(src).read() if os.path.exists(src) else ''
@@ -37,9 +39,15 @@ def make_overlay(name, edits):
             s = s + new
         else:
             n = s.count(old)
-            if n != 1:
-                raise SystemExit(f'mutant {name}: pattern occurs {n} times in {rel}: {old!r}')
-            s = s.replace(old, new)
+            if nth is None:
+                if n != 1:
+                    raise SystemExit(f'mutant {name}: pattern occurs {n} times in {rel}: {old!r}')
+                s = s.replace(old, new)
+            else:
+                if n <= nth:
+                    raise SystemExit(f'mutant {name}: pattern occurs only {n} times in {rel}: {old!r}')
+                parts = s.split(old)
+                s = old.join(parts[:nth + 1]) + new + old.join(parts[nth + 1:])
         texts[rel] = s
     for rel, s in texts.items():
         dst = os.path.join(d, rel.replace('/', '__') + '.txt')
